@@ -4,6 +4,7 @@ CONSTANTS
   MaxFiles = 4
   ReloadOnAcquire = TRUE
   AtomicReload = FALSE
+  ReloadUnderLock = TRUE
   MaxZombie = 1
 INVARIANTS TypeOK NoUnmanagedFile NoOrphanAtRest NeverDeletesLiving
 CHECK_DEADLOCK FALSE
